@@ -17,7 +17,7 @@ var (
 	c04Left  = []string{"LEFT JOIN", "LEFT HASH_JOIN", "PARALLEL LEFT JOIN", "PARALLEL LEFT HASH_JOIN"}
 	c04Right = []string{"RIGHT JOIN", "RIGHT HASH_JOIN", "PARALLEL RIGHT JOIN", "PARALLEL RIGHT HASH_JOIN"}
 	c04Floor = []string{"type.inner", "type.left", "type.right", "on.equi", "on.nonequi", "on.or", "on.multi", "on.flipped", "keys.str", "keys.num", "dupkeys",
-		"left.empty", "right.empty", "unmatched.left", "unmatched.right", "meta.permute", "meta.flip", "keys.mixed-kind", "alias.prefix", "keys.nested-path"}
+		"left.empty", "right.empty", "unmatched.left", "unmatched.right", "meta.permute", "meta.flip", "keys.mixed-kind", "alias.prefix", "keys.nested-path", "keys.many"}
 )
 
 func init() {
@@ -57,13 +57,22 @@ type c04Case struct {
 	nonEqu bool
 }
 
-func c04Tables(c *fw.Case, forceEmpty string, mixed bool) (*gen.Table, *gen.Table) {
+func c04Tables(c *fw.Case, forceEmpty string, mixed bool, many ...bool) (*gen.Table, *gen.Table) {
 	maxRows := pick(c.Tier, 10, 30)
 	nums := []any{1.0, 2.0, 3.0, 1.5, -1.0, 10.0}
 	if mixed {
 		nums = []any{9.0, 10.0, 3.0, 25.0, 1.5, -1.0, 100.0}
 	}
 	nums = nums[:2+c.Intn(len(nums)-1)]
+	minRows := 0
+	if len(many) > 0 && many[0] {
+		// many distinct keys: more key groups than any batch or worker count
+		nums = nil
+		for i, k := 0, 66+c.Intn(60); i < k; i++ {
+			nums = append(nums, float64(i))
+		}
+		minRows, maxRows = 66, 130
+	}
 	// mixed kinds: the right table's key columns hold the decimal texts of numbers
 	rnums := nums
 	if mixed {
@@ -80,6 +89,9 @@ func c04Tables(c *fw.Case, forceEmpty string, mixed bool) (*gen.Table, *gen.Tabl
 		n := c.Intn(maxRows + 1)
 		if c.Chance(0.5) && n > 6 {
 			n = c.Intn(6)
+		}
+		if minRows > 0 {
+			n = minRows + c.Intn(maxRows-minRows)
 		}
 		if empty {
 			n = 0
@@ -265,8 +277,12 @@ func c04Diff(c *fw.Case, par bool) {
 		force = c04Floor[c.Idx%len(c04Floor)]
 	}
 	mixed := force == "keys.mixed-kind" || (force == "" && c.Chance(0.12))
-	l, r := c04Tables(c, force, mixed)
+	many := force == "keys.many" || (force == "" && !mixed && c.Chance(0.008))
+	l, r := c04Tables(c, force, mixed, many)
 	on, feats := c04On(c, force)
+	if many {
+		feats = append(feats, "keys.many")
+	}
 	if mixed {
 		feats = append(feats, "keys.mixed-kind")
 	}
